@@ -12,7 +12,7 @@ import z3
 from .core import (
     Interp, PathCtx, PathEnd, RaiseSig, Roots, clone_graph, heap_diff, Obligation, QueueCell, same_value,
 )
-from .values import CheckerError, Eq_, And_, Not_, Implies_, SObj, SOpt, to_z3_bool, Unsupported, ListCell, DictCell
+from .values import axioms_for, CheckerError, Eq_, And_, Not_, Implies_, SObj, SOpt, to_z3_bool, Unsupported, ListCell, DictCell
 
 Z3_RLIMIT = 40_000_000
 Z3_TIMEOUT_MS = 120_000
@@ -74,6 +74,7 @@ def run_path(interp: Interp, fi, contract):
         return "infeasible-pre", e.why
     old, _ = clone_graph(roots)
     o = Roots(old)
+    ctx.pre_roots = o
     n_pre_events = len(ctx.trace)
     fq = fi.fq
     try:
@@ -107,7 +108,16 @@ def run_path(interp: Interp, fi, contract):
         if rc.iff and rc.when is not None:
             ctx.oblige(f"{fq}::raises::{rc.label}.must-raise", Not_(rc.when(o)), kind="raises", props=rc.props)
     for c in contract.ensures:
-        ctx.oblige(f"{fq}::post::{c.label}", c.fn(o, n, result), kind="post", props=c.props or contract.props)
+        extra = []
+        for ll, lf in c.lemmas:
+            lem = lf(o, n, result)
+            if lem is None:
+                continue
+            ctx.oblige(f"{fq}::post::{c.label}.lemma.{ll}", lem, kind="lemma", props=c.props or contract.props,
+                       extra_hyps=extra)
+            extra.append(lem)
+        ctx.oblige(f"{fq}::post::{c.label}", c.fn(o, n, result), kind="post", props=c.props or contract.props,
+                   extra_hyps=extra)
     if contract.emits is not None:
         emits_obligations(interp, fq, contract, o, n, result, ctx.trace[n_pre_events:])
     frame_obligations(interp, fq, old, roots, contract.modifies_list(o), contract.props)
@@ -224,34 +234,94 @@ def _evname(e):
 
 
 # ----------------------------------------------------------------------------------------------
+def split_goal(hyps, goal, depth=0):
+    """Split a goal into simpler sub-goals (all must hold): conjunctions, case analysis on a
+    disjunctive antecedent, and the two directions of a quantified Boolean equivalence."""
+    if depth > 6:
+        return [(hyps, goal)]
+    if z3.is_and(goal):
+        out = []
+        for c in goal.children():
+            out += split_goal(hyps, c, depth + 1)
+        return out
+    if z3.is_implies(goal):
+        a, g = goal.children()
+        if z3.is_or(a):
+            out = []
+            for d in a.children():
+                out += split_goal(hyps, z3.Implies(d, g), depth + 1)
+            return out
+        if z3.is_and(g) or z3.is_implies(g) or (z3.is_quantifier(g) and g.is_forall()):
+            return split_goal(hyps + [a], g, depth + 1)
+        return [(hyps + [a], g)]
+    if z3.is_quantifier(goal) and goal.is_forall():
+        body = goal.body()
+        if z3.is_eq(body) and z3.is_bool(body.arg(0)):
+            vs = [z3.Const(goal.var_name(i) + "!sk%d" % depth, goal.var_sort(i)) for i in range(goal.num_vars())]
+            inst = z3.substitute_vars(body, *reversed(vs))
+            l, r = inst.arg(0), inst.arg(1)
+            return split_goal(hyps, z3.Implies(l, r), depth + 1) + split_goal(hyps, z3.Implies(r, l), depth + 1)
+        if z3.is_and(body) or z3.is_implies(body):
+            vs = [z3.Const(goal.var_name(i) + "!sk%d" % depth, goal.var_sort(i)) for i in range(goal.num_vars())]
+            inst = z3.substitute_vars(body, *reversed(vs))
+            return split_goal(hyps, inst, depth + 1)
+    return [(hyps, goal)]
+
+
+PORTFOLIO = [
+    ({}, 3_000_000),
+    ({"smt.random_seed": 7}, 6_000_000),
+    ({"smt.random_seed": 13, "smt.qi.eager_threshold": 100.0}, 12_000_000),
+    ({"smt.random_seed": 29}, 40_000_000),
+]
+
+
+def _z3_check(hyps, goal, cfg, rlimit):
+    s = z3.Solver()
+    s.set("rlimit", rlimit)
+    s.set("timeout", Z3_TIMEOUT_MS)
+    for k, v in cfg.items():
+        s.set(k, v)
+    for h in hyps:
+        s.add(h)
+    s.add(z3.Not(goal))
+    for ax in axioms_for(list(hyps) + [goal]):
+        s.add(ax)
+    r = s.check()
+    return r, s
+
+
 def discharge(ob: Obligation, rlimit=Z3_RLIMIT, use_cvc5=True):
     """-> (verdict, backend, seconds, model_or_reason)   verdict in {'unsat','sat','unknown'}"""
     t0 = time.time()
     if z3.is_true(z3.simplify(ob.goal)):
         return "unsat", "simplify", time.time() - t0, None
-    s = z3.Solver()
-    s.set("rlimit", rlimit)
-    s.set("timeout", Z3_TIMEOUT_MS)
-    for h in ob.hyps:
-        s.add(h)
-    s.add(z3.Not(ob.goal))
-    r = s.check()
-    dt = time.time() - t0
-    if r == z3.unsat:
-        return "unsat", "z3", dt, None
-    if r == z3.sat:
-        return "sat", "z3", dt, model_to_dict(s.model())
-    reason = s.reason_unknown()
-    if use_cvc5:
-        v, why = run_cvc5(s.to_smt2())
-        dt = time.time() - t0
-        if v == "unsat":
-            return "unsat", "cvc5", dt, None
-        if v == "sat":
-            # try to obtain a (possibly partial) z3 model for replay purposes
-            return "sat", "cvc5", dt, {"_note": "cvc5 sat; no model extracted", "_z3_reason": reason}
-        reason += f"; cvc5: {why}"
-    return "unknown", "z3+cvc5" if use_cvc5 else "z3", dt, {"_reason": reason}
+    parts = split_goal(list(ob.hyps), ob.goal)
+    backend_used = "z3"
+    for hyps, goal in parts:
+        verdict = None
+        last = None
+        for cfg, rl in PORTFOLIO:
+            r, s = _z3_check(hyps, goal, cfg, rl)
+            last = s
+            if r == z3.unsat:
+                verdict = "unsat"
+                break
+            if r == z3.sat:
+                return "sat", "z3", time.time() - t0, model_to_dict(s.model())
+        if verdict == "unsat":
+            continue
+        reason = last.reason_unknown()
+        if use_cvc5:
+            v, why = run_cvc5(last.to_smt2())
+            if v == "unsat":
+                backend_used = "z3+cvc5"
+                continue
+            if v == "sat":
+                return "sat", "cvc5", time.time() - t0, {"_note": "cvc5 sat; no model extracted", "_z3_reason": reason}
+            reason += f"; cvc5: {why}"
+        return "unknown", "z3+cvc5" if use_cvc5 else "z3", time.time() - t0, {"_reason": reason, "_subgoal": str(goal)[:300]}
+    return "unsat", backend_used, time.time() - t0, None
 
 
 def run_cvc5(smt2: str, timeout_s=60):
@@ -294,11 +364,16 @@ def model_to_dict(m):
     return out
 
 
-def verify_function(world, contract, use_cvc5=True):
+def verify_function(world, contract, use_cvc5=True, known=()):
     """Full per-function run. Returns a JSON-able dict."""
+    import re
     t0 = time.time()
     fi = world.index.by_fq(contract.fq)
     paths, obligations, stats = explore(world, contract)
+    try:
+        from contracts.findings import FINDING_CLASSES
+    except ImportError:
+        FINDING_CLASSES = {}
     results = {}
     backends = {}
     solver_time = 0.0
@@ -318,13 +393,32 @@ def verify_function(world, contract, use_cvc5=True):
         if verdict == "unsat":
             r["discharged"] += 1
         else:
-            r["failed"].append({"path": ob.path_id, "verdict": verdict, "model": model, "info": ob.info,
-                                "decisions": paths[ob.path_id].decisions})
+            rec = {"path": ob.path_id, "verdict": verdict, "model": model, "info": ob.info,
+                   "decisions": paths[ob.path_id].decisions}
+            # is this exactly a recorded known finding?  re-prove with the finding's input class excluded
+            for k in known:
+                if not re.search(k["obligation"], ob.name):
+                    continue
+                cls = FINDING_CLASSES.get(k["id"])
+                if cls is None or ob.pre is None:
+                    continue
+                try:
+                    excl = cls(ob.pre)
+                except Exception as e:  # class predicate not applicable to this function's pre-state
+                    continue
+                ob2 = Obligation(ob.name, ob.kind, list(ob.hyps) + [z3.Not(to_z3_bool(excl))], ob.goal, ob.line, ob.props)
+                v2, b2, dt2, _ = discharge(ob2, use_cvc5=use_cvc5)
+                solver_time += dt2
+                if v2 == "unsat":
+                    rec["known"] = k["id"]
+                    break
+            r["failed"].append(rec)
     return {
         "function": contract.fq,
         "file": os.path.relpath(fi.file, "/"),
         "line": fi.node.lineno,
         "paths": len(paths),
+        "feasible_paths": sum(1 for p in paths if p.outcome in ("return", "raise")),
         "path_outcomes": _count([p.outcome for p in paths]),
         "path_details": [(p.outcome, p.detail) for p in paths][:40],
         "obligations": list(results.values()),
